@@ -68,12 +68,87 @@ def run(sidecars, tier="quick", budget_s=240):
     except Exception as e:  # noqa: BLE001
         workloads["bounded corpus operations"] = dict(error=f"{type(e).__name__}: {e}")
     rt.uninstall()
+    # ---- the trusted axioms of the sidecars, evaluated on values drawn from the corpus
+    t2 = time.time()
+    try:
+        ax_stats = check_axioms(on_violation, tier)
+    except Exception as e:  # noqa: BLE001
+        ax_stats = dict(error=f"{type(e).__name__}: {e}")
+    workloads["trusted axioms evaluated natively"] = dict(wall_s=round(time.time() - t2, 1), **({"axioms": ax_stats} if not isinstance(ax_stats, dict) or "error" not in ax_stats else ax_stats))
     hits = {k: rt.HITS.get(k, 0) for k in keys}
     return dict(hits=hits, checked={k: rt.CHECKED.get(k, 0) for k in keys}, invariant_checks=dict(INV_HITS), violations=violations, unresolved=unresolved, workloads=workloads, invariants=inv_stats,
                 test_suite_exit=int(rc), wall_s=round(time.time() - t0, 1))
 
 
 INV_HITS: dict = {}
+
+
+def check_axioms(on_violation, tier):
+    """every axiom whose vocabulary is executable is evaluated on tuples drawn from pools of real
+    values (strings, nodes, fragments, node types, marks, small ints) -> {axiom: evaluations}"""
+    import itertools
+    import random
+
+    from pyvc import api
+
+    from . import domain as D
+    from . import rt
+
+    rnd = random.Random(11)
+    pools: dict = {"int": list(range(-1, 5)), "bool": [False, True], "str": ["", "a", "ab", "b", "a" + D.ASTRAL, D.ASTRAL, D.ASTRAL + "a", "ab" + D.ASTRAL + "b"]}
+    nodes, frags, types, marks, mtypes = [], [], [], [], []
+    for name in ("basic", "list", "table", "marksx"):
+        try:
+            S, O = D.schema(name)
+        except Exception:  # noqa: BLE001
+            continue
+        types.extend(S.nodes.values())
+        mtypes.extend(S.marks.values())
+        for doc in D.corpus(name)[:8]:
+            def walk(n):
+                nodes.append(n)
+                frags.append(n.content)
+                marks.extend(n.marks)
+                if n.is_text:
+                    pools["str"].append(n.text)
+                for c in n.content.content:
+                    walk(c)
+            walk(doc)
+    for k, v in (("Node", nodes), ("Fragment", frags), ("NodeType", types), ("Mark", marks), ("MarkType", mtypes)):
+        rnd.shuffle(v)
+        pools[k] = v[:60]
+    pools["str"] = list(dict.fromkeys(pools["str"]))[:24]
+    pools["list[int]"] = [list(s.encode("utf-16-le")) for s in pools["str"][:10]]
+    pools["list[Node]"] = [f.content for f in frags[:30]]
+    pools["list[Mark]"] = [n.marks for n in nodes[:40]]
+    pools["TextNode"] = [n for n in nodes if n.is_text][:40]
+    stats = {}
+    for ax in api.AXIOMS:
+        kinds = list(ax.vars.values())
+        if any(k not in pools or not pools[k] for k in kinds):
+            stats[ax.name] = "not evaluated natively: no value pool for " + ", ".join(k for k in kinds if k not in pools or not pools[k])
+            continue
+        try:
+            code = rt.compile_clause(ax.expr)[0]
+        except Exception as e:  # noqa: BLE001
+            stats[ax.name] = f"not evaluated natively: {e}"
+            continue
+        combos = itertools.product(*[pools[k] for k in kinds]) if kinds else [()]
+        n = 0
+        err = None
+        for combo in itertools.islice(combos, 4000 if tier == "quick" else 40000):
+            env = dict(zip(ax.vars.keys(), combo))
+            try:
+                ok = rt.ev(code, env)
+            except (IndexError, ValueError, AttributeError, TypeError, KeyError, RecursionError) as e:
+                err = f"{type(e).__name__}: {e}"
+                continue  # outside the vocabulary's native domain (e.g. an index guard evaluated eagerly)
+            n += 1
+            if not ok:
+                on_violation(rt.ContractViolation(f"axiom:{ax.name}", "trusted-axiom-false", ax.expr, f"for {({k: repr(v)[:80] for k, v in env.items()})}"))
+                break
+        stats[ax.name] = n if n or not err else f"not evaluated natively: {err}"
+    return stats
 
 
 def install_invariants(on_violation):
@@ -194,6 +269,9 @@ def corpus_workload(tier, deadline):
                             inv.get_map()
                         tr.mapping.map(a, -1)
                         tr.mapping.map_result(b, 1)
+                        tr.before.content.find_diff_start(tr.doc.content)
+                        tr.before.content.find_diff_end(tr.doc.content)
+                        tr.doc.content.find_diff_start(tr.doc.content)
                         n += 1
                     except ValueError:
                         pass
